@@ -387,6 +387,21 @@ def F22():
         os.remove(f)
 
 
+def F23():
+    """C04: below a dead source solve() raises 'Unstable system' instead of reporting zeros"""
+    s = System("t", Source("S", vo=0.0))
+    s.add_comp("S", comp=RLoss("R1", rs=1.0))
+    s.add_comp("R1", comp=Converter("C", vo=5.0, eff=0.9))
+    s.add_comp("C", comp=RLoss("R2", rs=100.0))
+    s.add_comp("R2", comp=ILoad("L", ii=1.0))
+    try:
+        df = s.solve()
+    except ValueError as e:
+        return ["solve() raised: %s" % e]
+    bad = [c for c, v in zip(df["Component"], df["Vout (V)"]) if v not in ("", 0.0)]
+    return ["components with an output voltage below a dead source: %r" % bad] if bad else []
+
+
 ALL = {k: v for k, v in globals().items() if k[0] == "F" and k[1:].isdigit()}
 if __name__ == "__main__":
     rc = 0
